@@ -26,6 +26,12 @@ Definition left_div {n p} (A : mx O n n) (B : mx O n p) : mx O n p := minv A |*|
 (* right_div(B, A) = lstsq(A.T, B.T).T *)
 Definition right_div {n p} (B : mx O p n) (A : mx O n n) : mx O p n := mtr (left_div (mtr A) (mtr B)).
 
+(* ---------------------------------------------------------------- systems.py: System.__init__ *)
+(* model not declared linear:  C = -(A @ xi + B @ xi_lagged),  xi = the steady-state path read at the tokens of the
+   system vector, xi_lagged = the same tokens one period earlier (the steady state may grow) *)
+Definition system_constant {m n} (A B : mx O m n) (xi xi_lagged : mx O n 1) : mx O m 1 :=
+  |-| (A |*| xi |+| B |*| xi_lagged).
+
 (* ---------------------------------------------------------------- _solve_transition_equations *)
 (* nb = num_backwards = num_stable, nf = num_forwards, ne = number of transition shocks.
    S, T, Q : (nb+nf) x (nb+nf);  Z : (nf+nb) x (nb+nf)  (rows are the system vector: leads first) *)
@@ -299,6 +305,10 @@ Definition check_solution (nb nf ne ny nw : nat) (S T Q Z C D Ta u F Gm Hc Jm : 
   failing_idx (map (fun p => mclose tolinv (fst p) (fst (snd p)) (snd (snd p)))
                    (combine (solution_matrices nb nf ne ny nw (fm_of S) (fm_of T) (fm_of Q) (fm_of Z) (fm_of C) (fm_of D)
                                (fm_of Ta) (fm_of u) (fm_of F) (fm_of Gm) (fm_of Hc) (fm_of Jm)) expected)) 0.
+
+(* the constant vector of the unsolved system of a model not declared linear, from the steady-state path *)
+Definition check_constant (m n : nat) (A B xi xil C : raw) : list nat :=
+  failing_idx [mclose tolinv (@system_constant FO m n (fm_of A) (fm_of B) (fm_of xi) (fm_of xil)) (fst C) (snd C)] 0.
 End A.
 
 (* ---- stage (b): expansion and a whole flat simulation from the solution matrices the implementation
